@@ -665,6 +665,36 @@ def replay_py(payload):
             return {"confirmed": True, "observed": "raises %s: %s" % (type(e).__name__, e), "expected": "a value in %d..%d" % (lo, hi)}
         bad = sorted(v for v in seen if not (isinstance(v, int) and lo <= v <= hi))
         return {"confirmed": bool(bad) and not f.get("truncated"), "observed": bad or sorted(seen), "expected": "values in %d..%d" % (lo, hi)}
+    if what == "versions":
+        dm = toolkit("data_msg")
+        got = (tuple(dm.Msg.KNOWN_VERSIONS), dm.Msg.CHDR_VERSION_MAX)
+        return {"confirmed": got != (S.KNOWN_VERSIONS, S.VER_MAX), "observed": got, "expected": (S.KNOWN_VERSIONS, S.VER_MAX)}
+    if what == "send_response":
+        import time as _time
+        cim = toolkit("ctrl_if")
+        bad = []
+        for delay in (0, 1, 250):
+            for code in (0, -1, 7):
+                for req in (["POWERON"], ["TXTUNE", "941600"], ["SETFH", "1", "0"] + [str(900000 + k) for k in range(128)]):
+                    for params in (None, ["-77"], ["5", "6"]):
+                        t = native_trx()
+                        t.ctrl_if.rsp_delay_ms = delay
+                        slept = []
+                        orig = cim.time.sleep
+                        cim.time.sleep = lambda x: slept.append(x)
+                        try:
+                            t.ctrl_if.send_response(list(req), ("10.0.0.1", 4711), code, None if params is None else list(params))
+                            got = list(t.ctrl_if.sock.sent)
+                        except Exception as e:
+                            got = "raises %s: %s" % (type(e).__name__, e)
+                        finally:
+                            cim.time.sleep = orig
+                        text = "RSP " + " ".join([req[0], str(code)] + req[1:] + (params or [])) + "\0"
+                        want = [(text.encode(), ("10.0.0.1", 4711))]
+                        if got != want or bool(slept) != (delay > 0) or (slept and abs(slept[0] - delay / 1000.0) > 1e-9):
+                            bad.append({"request": req[:4], "code": code, "params": params, "delay_ms": delay, "observed": repr(got)[:160], "slept": slept,
+                                        "expected": repr(want)[:160]})
+        return {"confirmed": bool(bad), "observed": bad[:3] or "as specified", "expected": "one NUL-terminated RSP <verb> <status> <args> [results] to the requester, delayed only when configured"}
     if what in ("set_hdr_ver", "pick_hdr_ver"):
         di = toolkit("data_if")
         d = di.DATAInterface.__new__(di.DATAInterface)
